@@ -246,15 +246,76 @@ Theorem run_pin_spec c e ord st p bl :
   | Done (Commit op) => op = "LogPin" /\ pin_core c e ord st p bl = (ROk (x_pin (snd r)), log_pin st (x_pin (snd r)))
   | _ => False end.
 Proof.
+  pose proof (run_pin_main c e ord st p bl) as M. cbv zeta in M. unfold model_pin, always in M. cbn [skipn] in M.
   cbv zeta. unfold run_pin, model_pin, always, pin_core.
-  rewrite run_steps_guard. cbn [eval_c pin_ctx x_cfg].
+  set (x := pin_ctx c e ord st p bl) in *.
+  rewrite run_steps_guard. cbn [eval_c]. change (x_cfg x) with c.
   destruct (follower c) eqn:F.
   { cbn [fst]. exists EFollower. split; reflexivity. }
   rewrite run_steps_guard. cbn [eval_c].
-  rewrite run_steps_guard. cbn [eval_c x_pin pin_ctx].
+  rewrite run_steps_guard. cbn [eval_c]. change (x_pin x) with p.
   destruct (o_update (p_opts p)) as [u|] eqn:U; cbn [is_some negb andb].
   - destruct ((u =? p_cid p)%N) eqn:UE; cbn [negb].
     2:{ cbn [fst]. split; [reflexivity|]. exists u. split; [reflexivity|split; [exact UE|reflexivity]]. }
-    exact (run_pin_main c e ord st p bl).
-  - exact (run_pin_main c e ord st p bl).
+    match goal with |- context [run_steps pin_callee ?l x] => set (R := run_steps pin_callee l x) in * end.
+    destruct (fst R) as [[cls|f|op|]|]; try exact M; contradiction.
+  - match goal with |- context [run_steps pin_callee ?l x] => set (R := run_steps pin_callee l x) in * end.
+    destruct (fst R) as [[cls|f|op|]|]; try exact M; contradiction.
+Qed.
+
+(* ---- Unpin, PinUpdate ---- *)
+Definition dummy_pin : pin := mk_pin (mk_opts 0 0 0%N 0%N 0%N [] None [] None []) 0%N BadT [] 0 None.
+
+(* Unpin: `pin` is what PinGet found; the oracles: PinGet fails = not in the state, unpinClusterDag fails = cids_from_meta has no answer *)
+Definition unpin_ctx (c : cfg) (e : env) (st : list (N * pin)) (h : N) : gctx :=
+  let found := aget h st in
+  let p := match found with Some p => p | None => dummy_pin end in
+  mk_gctx c (e_now e) p None [] [] (p_opts p)
+    (fun f => if String.eqb f "PinGet" then negb (is_some found)
+              else if String.eqb f "unpinClusterDag" then negb (is_some (cids_from_meta e st h p)) else false) [].
+
+Theorem run_unpin_spec c e st h :
+  match fst (run_unpin (unpin_ctx c e st h)) with
+  | Done (Refuse cls) => exists er, err_of_class cls = Some er /\ unpin_op c e st h = (RErr er, st)
+  | Done (Commit op) => op = "LogUnpin" /\ exists p st', aget h st = Some p /\ unpin_op c e st h = (ROk p, st')
+  | _ => False end.
+Proof.
+  unfold run_unpin, model_Unpin, unpin_op, unpin_ctx. cbv zeta.
+  rewrite run_steps_guard. cbn [eval_c]. xsimp.
+  destruct (follower c). { cbn [fst]. exists EFollower. split; reflexivity. }
+  rewrite run_steps_guard. cbn [eval_c String.eqb Ascii.eqb Bool.eqb]. xsimp.
+  destruct (aget h st) as [p|] eqn:G; cbn [is_some negb].
+  2:{ cbn [fst]. exists ENotFound. split; reflexivity. }
+  cbn [run_steps eval_c who_pin String.eqb Ascii.eqb Bool.eqb]. xsimp.
+  destruct (p_ty p); cbn [ptype_eqb orb negb andb fst].
+  - exists EUnpinType. split; reflexivity.
+  - split; [reflexivity|]. eexists _, _. split; reflexivity.
+  - destruct (cids_from_meta e st h p) as [cs|]; cbn [is_some negb fst].
+    + split; [reflexivity|]. eexists _, _. split; reflexivity.
+    + exists EMeta. split; reflexivity.
+  - exists EUnpinType. split; reflexivity.
+  - exists EUnpinType. split; reflexivity.
+Qed.
+
+Definition update_ctx (c : cfg) (e : env) (st : list (N * pin)) (f : N) (o : opts) : gctx :=
+  mk_gctx c (e_now e) dummy_pin (aget f st) [] [] o
+    (fun g => if String.eqb g "PinGet" then negb (is_some (aget f st)) else false) [].
+
+Theorem run_update_spec c e st f t o :
+  match fst (run_update (update_ctx c e st f o)) with
+  | Done (Refuse cls) => exists er, err_of_class cls = Some er /\ pin_update_op c e st f t o = (RErr er, st)
+  | Done (Commit op) => op = "LogPin" /\ exists ex, aget f st = Some ex
+        /\ pin_update_op c e st f t o = (ROk (updated_pin (e_now e) ex f t o), log_pin st (updated_pin (e_now e) ex f t o))
+  | _ => False end.
+Proof.
+  unfold run_update, model_PinUpdate, pin_update_op, update_ctx, always.
+  rewrite run_steps_guard. cbn [eval_c]. xsimp.
+  destruct (follower c). { cbn [fst]. exists EFollower. split; reflexivity. }
+  rewrite run_steps_guard. cbn [eval_c String.eqb Ascii.eqb Bool.eqb]. xsimp.
+  destruct (aget f st) as [ex|] eqn:G; cbn [is_some negb].
+  2:{ cbn [fst]. exists ENotFound. split; reflexivity. }
+  rewrite run_steps_guard. cbn [eval_c who_pin]. xsimp.
+  destruct (ptype_eqb (p_ty ex) DataT); cbn [negb].
+  2:{ cbn [fst]. exists EUpdateType. split; reflexivity. }
+  rewrite !run_steps_effect. rewrite run_steps_guard. cbn [eval_c fst]. split; [reflexivity|]. exists ex. split; reflexivity.
 Qed.
